@@ -66,9 +66,28 @@ theorem C19_next_no_status_change_when_not_running (c : Cond) (h1 : c.st.status.
 
 /-! ### offers come from staging -/
 
+theorem renderTask_key (ev : Expr → EvalCtx → Option Val) (ts : TaskSpec) (vars : Val.Dict) (k : TaskKey)
+    (o : Offer) (h : renderTask ev ts vars k = .ok o) : o.id = k.1 ∧ o.route = k.2 := by
+  unfold renderTask at h
+  simp only [bind, Except.bind, pure, Except.pure] at h
+  repeat' split at h
+  all_goals (cases h <;> (try exact ⟨rfl, rfl⟩))
+
+theorem Post.liftExcept {α} {Q : α → Prop} {x : Except Err α} (h : ∀ a, x = .ok a → Q a) :
+    Post (M.liftExcept x) Q := by
+  constructor
+  intro s a s' heq
+  cases x with
+  | error e => cases heq
+  | ok b =>
+    have hb : (Except.ok b, s) = (Except.ok a, s') := heq
+    have : b = a := by injection hb with h1 _; injection h1
+    exact h a (by rw [this])
+
 theorem getTask_key (k : TaskKey) : Post (getTask E k) (fun o => o.id = k.1 ∧ o.route = k.2) := by
   unfold getTask
   repeat' (first
+    | exact Post.liftExcept (fun o h => renderTask_key _ _ _ _ o h)
     | exact Post.pure ⟨rfl, rfl⟩
     | exact Post.throw _
     | apply Post.bind
@@ -76,10 +95,17 @@ theorem getTask_key (k : TaskKey) : Post (getTask E k) (fun o => o.id = k.1 ∧ 
     | split
     | dsimp only)
 
+theorem windowOf_key (o o' : Offer) (items : List Status) (h : windowOf o items = .ok o') :
+    o'.id = o.id ∧ o'.route = o.route := by
+  unfold windowOf at h
+  repeat' split at h
+  all_goals (cases h <;> (try exact ⟨rfl, rfl⟩))
+
 theorem evaluateTaskActions_key (o : Offer) :
     Post (evaluateTaskActions o) (fun o' => o'.id = o.id ∧ o'.route = o.route) := by
   unfold evaluateTaskActions
   repeat' (first
+    | exact Post.liftExcept (fun o' h => windowOf_key _ o' _ h)
     | exact Post.pure ⟨rfl, rfl⟩
     | exact Post.throw _
     | apply Post.bind
